@@ -2,7 +2,7 @@
    File/FileServer.v transcribes CS101_FileServer_handleAsdu and CS101_FileServer_runTask (tied to the compiled
    plugin by differential execution, white-box state included, on every run). *)
 From Coq Require Import ZArith List Bool.
-From L60870 Require Import Dispatch.DispatchBase File.FileServer File.FileSpec File.FileProofs File.FileInv.
+From L60870 Require Import Dispatch.DispatchBase File.FileServer File.FileSpec File.FileProofs File.FileInv File.UploadProofs.
 Import ListNotations.
 Local Open Scope Z_scope.
 
@@ -57,9 +57,21 @@ Proof. exact repeated_rounds. Qed.
 Theorem C20_upload_offsets : forall c e now, 0 <= f_timeout c ->
   forall msgs s, Forall (fun m => is_segment_msg c (fst (fst m)) (snd (fst m)) (snd m)) msgs ->
   st s = Receive -> rcv s = true -> last s = now ->
-  exists s', run c e (map (fun m => ERx 0 (fst (fst m))) msgs) s now [] = ROk s' now (offsets_obs (off s) msgs) /\
-             st s' = Receive /\ rcv s' = true /\ last s' = now /\ off s' = off s + total_len msgs /\ nos s' = nos s /\ size s' = size s.
+  run c e (map (fun m => ERx 0 (fst (fst m))) msgs) s now [] =
+  ROk (set_last (set_sec s (nos s) (off s + total_len msgs) (size s)) now) now (offsets_obs (off s) msgs).
 Proof. exact upload_offsets. Qed.
+
+(* Upload, whole procedure: file ready (accepted by the application), any number of sections each announced, sent in any
+   number of segments and closed by a last-segment message, then last-section: the trace is
+   fileReady callback . call-file . blocks . positive file ack . finished(success), each block (ups_obs / up_obs) being
+   call-section(k) . the receiver callbacks with offsets 0, los1, los1+los2, ... and the segments' octets . positive section ack *)
+Theorem C20_upload : forall c e s0 now fr its ls ca ioa nof lof kl,
+  0 <= f_timeout c -> e_recv e = 1 -> is_file_ready_msg c fr ca ioa nof lof -> up_ok c 1 its -> is_last_msg c ls kl 1 ->
+  exists s' os oa0 oa1,
+    run c e ([ERx 0 fr] ++ ups_events its ++ [ERx 0 ls]) s0 now [] =
+    ROk s' now ([CFileReady ca ioa nof lof; OSend 0 oa0 ca ioa nof TCallFile] ++ os ++ [OSend 0 oa1 ca ioa nof (TAck kl 1); CFinished 0]) /\
+    st s' = Idle /\ ups_obs ca ioa nof 1 its os.
+Proof. exact upload_complete. Qed.
 
 (* whatever state the server is in and whatever it receives (any message, any time): the provider is told an outcome only
    by a file acknowledgement (F_AF_NA_1), at most one notification per message, and the transfer is over afterwards
